@@ -837,6 +837,21 @@ func runLogCase(cp casePlan, dir string, oplog *os.File) *caseResult {
 		s.res.Incon = append(s.res.Incon, fmt.Sprintf("cannot open raft log store: %v", err))
 		return s.res
 	}
+	if cp.Kind == "raftlog:concurrent" {
+		s.base = []uint64{1, 1000, 1<<32 - 2500}[s.r.Intn(3)]
+		s.begin("concurrent", fmt.Sprintf("entries=%d base=%d", cp.Ops, s.base))
+		s.runConcurrent()
+		if !s.dead {
+			s.begin("close", "")
+			if err := s.st.Close(); err != nil {
+				s.fail("Close", "error", fmt.Sprintf("Close returned %v", err), nil)
+			}
+		}
+		s.res.Sig = fmt.Sprintf("%s|base=%d|max=%s", cp.Kind, s.base, sizeBucket(s.maxLogs))
+		s.res.Nontrivial = s.stores >= 1 && s.reads >= 10
+		s.res.Sample = map[string]interface{}{"id": cp.ID, "kind": cp.Kind, "base_index": s.base, "entries": s.maxLogs, "last_ops": s.recent}
+		return s.res
+	}
 	// an empty store: FirstIndex = LastIndex = 0, everything misses
 	s.begin("first_last", "fresh store")
 	s.checkFirstLast("FirstLastIndex")
@@ -891,7 +906,7 @@ func RunC15(c *lib.Ctx) {
 		"(inside, covering, empty, single, min>max, prefix, suffix, max=2^64-1), FirstIndex/LastIndex, Set/Get/SetUint64/GetUint64, close/reopen; " +
 		"or a raft-shaped sequence (contiguous appends, conflict truncation of a suffix, compaction of a prefix, term/vote bookkeeping). " +
 		"Every mutating call is followed by a read-back of the touched indexes and their neighbours; reopen and the end of a case by a full read-back, " +
-		"all compared with a map model. shape = workload x index base x largest log bucket x reopens x 1MB payloads. Non-trivial = at least one stored entry and >= 10 checked reads."
+		"all compared with a map model. Concurrency annex: one appender (StoreLog/StoreLogs), three readers (GetLog of indexes whose store call has returned) and a prefix compactor (DeleteRange) on one store, every entry a function of its index, then a quiescent audit. shape = workload x index base x largest log bucket x reopens x 1MB payloads. Non-trivial = at least one stored entry and >= 10 checked reads."
 	c.Assume = []string{
 		"nil and empty byte slices in Data/Extensions are the same value (raft does not distinguish them); flips are counted as information",
 		"GetLog is handed a zero raft.Log, as raft does",
@@ -915,6 +930,10 @@ func RunC15(c *lib.Ctx) {
 			kind = "raftlog:raft"
 		}
 		cases = append(cases, casePlan{ID: fmt.Sprintf("log/%d", i), Kind: kind, Seed: r.Uint64(), Ops: 80})
+	}
+	// concurrency annex: raft calls its log store from several goroutines at once
+	for i := 0; i < c.Q(6, 30); i++ {
+		cases = append(cases, casePlan{ID: fmt.Sprintf("conc/%d", i), Kind: "raftlog:concurrent", Seed: r.Uint64(), Ops: c.Q(6000, 20000)})
 	}
 	runCases(c, "stores-c15", cases, 8, time.Duration(c.Q(10, 40))*time.Minute)
 	if c.Only == "" {
